@@ -3,7 +3,12 @@
 (* C10 - plain sequential reference model of the IMAP4rev1 message         *)
 (* commands (RFC 3501 6.3.11 APPEND, 6.4.2 CLOSE, 6.4.3 EXPUNGE, 6.4.5     *)
 (* FETCH, 6.4.6 STORE, 6.4.7 COPY, 6.4.8 UID; RFC 4315 UID EXPUNGE /       *)
-(* APPENDUID / COPYUID; RFC 6851 MOVE).  ONE session, two mailboxes.       *)
+(* APPENDUID / COPYUID; RFC 6851 MOVE).  ONE acting session, two           *)
+(* mailboxes, and complete commands of ANOTHER session on the same         *)
+(* mailboxes in between (OtherStore / OtherAppend / OtherExpunge below):   *)
+(* the mailbox is shared and the model is sequential, so any interleaving  *)
+(* of COMPLETE commands of several sessions is the model applied in that   *)
+(* order.                                                                  *)
 (*                                                                         *)
 (* Nothing here is shaped after pymap: a mailbox is a map                  *)
 (*      uid -> [f: flags, d: date index, c: content id]                    *)
@@ -15,7 +20,8 @@
 (*             {[u |-> uid, f |-> flags after the command]}                *)
 (*   expunged  uids reported by untagged EXPUNGE                           *)
 (*   pairs     {<<source uid, new uid>>} of COPYUID; APPENDUID is <<0,u>>  *)
-(*   exists, uidnext   of SELECT                                           *)
+(*   exists, uidnext   of SELECT (exists also: the EXISTS the acting       *)
+(*             session is told after the other session's delivery)         *)
 (*   choice    how points of RFC latitude were resolved at this step:      *)
 (*             {<<point, resolution>>}, {} when there was none             *)
 (*                                                                         *)
@@ -253,9 +259,10 @@ Move(um, s, dest) ==
         \/ Refused("move", why)
 
 \* APPEND dest (F) date literal: ONE new message with the given flags and date
-\* (d = 0: no date given - the server's current time); allowed in every state
-AppendMsg(dest, F, d) ==
-  /\ Turn("append") /\ Count /\ nextuid[dest] <= MaxUid
+\* (d = 0: no date given - the server's current time); allowed in every state.
+\* cmd = "append": by the acting session; "oappend": by the other session (below)
+AppendAs(cmd, dest, F, d) ==
+  /\ Count /\ nextuid[dest] <= MaxUid
   /\ LET recent == "R" \in F
          unperm == "K" \in F /\ ~KwPermitted
          u == nextuid[dest]
@@ -264,13 +271,17 @@ AppendMsg(dest, F, d) ==
                 LET G == ((F \ {"R"}) \cap Permitted) \cup (IF kw = "keep" THEN {"K"} ELSE {})
                 IN /\ mb' = [mb EXCEPT ![dest] =
                                [x \in (DOMAIN @) \cup {u} |-> IF x = u THEN Msg(G, d, nextcid) ELSE @[x]]]
-                   /\ last' = [NoRes EXCEPT !.cmd = "append", !.dest = dest, !.pairs = {<<0, u>>},
+                   /\ last' = [NoRes EXCEPT !.cmd = cmd, !.dest = dest, !.pairs = {<<0, u>>},
+                                 !.exists = IF cmd = "oappend" /\ dest = sel
+                                            THEN Cardinality(DOMAIN mb[dest]) + 1 ELSE 0,
                                  !.choice = Ch(Points(FALSE, recent))
                                              \cup (IF unperm THEN {<<"kw", kw>>} ELSE {})]
            /\ nextuid' = [nextuid EXCEPT ![dest] = u + 1]
            /\ nextcid' = nextcid + 1
            /\ UNCHANGED sel
         \/ Refused("append", Points(FALSE, recent))
+
+AppendMsg(dest, F, d) == Turn("append") /\ AppendAs("append", dest, F, d)
 
 \* CLOSE: the \Deleted messages are removed silently, back to "authenticated"
 Close ==
@@ -285,6 +296,53 @@ Select(b) ==
   /\ sel' = b /\ UNCHANGED <<mb, nextuid, nextcid>>
   /\ last' = [NoRes EXCEPT !.cmd = "select", !.dest = b,
                 !.exists = Cardinality(DOMAIN mb[b]), !.uidnext = nextuid[b]]
+
+---------------------------------------------------------------------------
+(* Complete commands of ANOTHER session (same user) between two commands   *)
+(* of the acting session.  Their effect on the shared mailbox is that of   *)
+(* the same command given by the acting session; `last` says what the      *)
+(* OTHER session was answered (addr, APPENDUID, expunged) and, where the   *)
+(* acting session is synchronised (see below), what IT is told.            *)
+(*                                                                         *)
+(* Message sequence numbers are relative to what a session has been TOLD   *)
+(* (7.4.1, 5.2): a message delivered by someone else has no sequence       *)
+(* number in the acting session before that session received EXISTS, and   *)
+(* an expunged one keeps its number until EXPUNGE was sent; what commands  *)
+(* on such a not-yet-synchronised view do is largely left open (RFC 2180). *)
+(* The model does not enter that window: View stays DOMAIN mb[sel].  An    *)
+(* other-session action that changes the SET of messages of the selected   *)
+(* mailbox therefore includes a NOOP of the acting session, which must     *)
+(* report the change (EXISTS n / EXPUNGE of exactly those messages).  A    *)
+(* flag change needs no such thing: OtherStore is followed directly by     *)
+(* the acting session's next command, which must act on the mailbox as it  *)
+(* IS (not as the session last saw it) - there is no latitude in that.     *)
+(* Flag arguments of the other session never hold \Recent (L2 is about the *)
+(* acting session's commands).                                             *)
+
+\* in the exhaustive profiles not as the LAST command of a program (nothing of the
+\* acting session would follow)
+OtherOK == Profile = "full" \/ ncmd < MaxCmds - 1
+
+\* the other session: SELECT sel ; UID STORE s FLAGS|+FLAGS|-FLAGS (F)
+OtherStore(s, op, F) ==
+  /\ Turn("ostore") /\ Count /\ sel # "none" /\ OtherOK /\ "R" \notin F
+  /\ LET A == Addr(s, TRUE, View, nextuid[sel])
+         G == F \cap Permitted
+     IN /\ SetW(WStore(W, sel, A, op, G)) /\ UNCHANGED <<nextcid, sel>>
+        /\ last' = [NoRes EXCEPT !.cmd = "ostore", !.addr = A]
+
+\* the other session: APPEND dest (F) date literal [; the acting session, if dest is
+\* its selected mailbox: NOOP -> EXISTS last.exists]
+OtherAppend(dest, F, d) ==
+  /\ Turn("oappend") /\ OtherOK /\ "R" \notin F /\ AppendAs("oappend", dest, F, d)
+
+\* the other session: SELECT sel ; EXPUNGE ; the acting session: NOOP -> EXPUNGE of
+\* exactly these messages
+OtherExpunge ==
+  /\ Turn("oexpunge") /\ Count /\ sel # "none" /\ OtherOK
+  /\ LET R == DeletedIn(mb[sel], View)
+     IN /\ SetW(WExpunge(W, sel, R)) /\ UNCHANGED <<nextcid, sel>>
+        /\ last' = [NoRes EXCEPT !.cmd = "oexpunge", !.expunged = R]
 
 ---------------------------------------------------------------------------
 (* Menus.  "q": quick exhaustive part, "t": thorough exhaustive part,      *)
@@ -369,10 +427,30 @@ AppendMenu ==
 
 SelectMenu == Boxes
 
+OtherFlagArgs == {F \in FlagArgsFull : "R" \notin F}
+OtherStoreMenu ==
+  CASE Profile = "q" ->
+       { <<SR(2, 0), "remove", {"D", "S"}>>,                   \* o: UID STORE 2:* -FLAGS (\Deleted \Seen)
+         <<S1(1), "add", {"D", "F"}>> }                        \* o: UID STORE 1 +FLAGS (\Deleted \Flagged)
+    [] Profile = "t" ->
+       { <<SR(2, 0), "remove", {"D", "S"}>>, <<S1(1), "add", {"D", "F"}>>,
+         <<S2(<<4>>, <<1>>), "replace", {"A"}>>,               \* o: UID STORE 4,1 FLAGS (\Answered)
+         <<SR(1, 0), "add", {"S", "K"}>> }                     \* o: UID STORE 1:* +FLAGS (\Seen kw)
+    [] OTHER -> {<<e>> : e \in ElemsSmall \cup {<<1, 0>>}} \X Ops \X OtherFlagArgs
+
+OtherAppendMenu ==
+  CASE Profile = "q" -> { <<"INBOX", {"S"}, 0>> }              \* o: APPEND INBOX (\Seen)
+    [] Profile = "t" -> { <<"INBOX", {"S"}, 0>>, <<"Box", {"D", "K"}, 2>> }
+    [] OTHER -> Boxes \X {{}, {"S"}, {"D", "F"}, {"K"}} \X {0, 2}
+
+OtherKinds == {"ostore", "oappend", "oexpunge"}
 Kinds == {"store", "fetch", "expunge", "uidexpunge", "copy", "move", "append", "close", "select"}
+           \cup OtherKinds
 KindEnabled(k) ==
   CASE k \in {"select"} -> TRUE
     [] k = "append"     -> \E b \in Boxes : nextuid[b] <= MaxUid
+    [] k = "oappend"    -> OtherOK /\ \E b \in Boxes : nextuid[b] <= MaxUid
+    [] k \in OtherKinds -> OtherOK /\ sel # "none"
     [] OTHER            -> sel # "none"
 
 Pick(k) ==
@@ -390,6 +468,9 @@ Next ==
   \/ \E c \in AppendMenu : AppendMsg(c[1], c[2], c[3])
   \/ Close
   \/ \E b \in SelectMenu : Select(b)
+  \/ \E c \in OtherStoreMenu : OtherStore(c[1], c[2], c[3])
+  \/ \E c \in OtherAppendMenu : OtherAppend(c[1], c[2], c[3])
+  \/ OtherExpunge
 
 ---------------------------------------------------------------------------
 StdInbox == (1 :> Msg({}, 1, 1)) @@ (2 :> Msg({"D"}, 2, 2)) @@ (4 :> Msg({"S", "F"}, 1, 4))
@@ -422,6 +503,7 @@ TypeOK ==
                                                  /\ mb[b][u].c \in 1..(nextcid - 1)
   /\ sel \in Boxes \cup {"none"}
   /\ last.cond \in {"OK", "REFUSED"}
+  /\ last.cmd \in Kinds \cup {"init"}
 
 \* every UID in use is below UIDNEXT
 UidsBelowNext == \A b \in Boxes : \A u \in DOMAIN mb[b] : u < nextuid[b]
@@ -454,10 +536,10 @@ MoveIsCopyStoreExpunge ==
            w3 == WExpunge(w2, sel, DeletedIn(w2.mb[sel], A))
        IN mb' = w3.mb /\ nextuid' = w3.nu /\ last'.expunged = A]_vars
 
-\* after EXPUNGE no \Deleted message is left, and only \Deleted ones were removed;
+\* after EXPUNGE (by either session) no \Deleted message is left, and only \Deleted ones were removed;
 \* UID EXPUNGE removes nothing outside its set
 ExpungeExact ==
-  [][/\ ((IsCmd /\ last'.cmd = "expunge") => /\ DeletedIn(mb'[sel], DOMAIN mb'[sel]) = {}
+  [][/\ ((IsCmd /\ last'.cmd \in {"expunge", "oexpunge"}) => /\ DeletedIn(mb'[sel], DOMAIN mb'[sel]) = {}
                                   /\ \A u \in (DOMAIN mb[sel]) \ DOMAIN mb'[sel] : "D" \in mb[sel][u].f)
      /\ ((IsCmd /\ last'.cmd = "uidexpunge") =>
              /\ (DOMAIN mb[sel]) \ (DOMAIN mb'[sel]) \subseteq last'.addr
@@ -472,12 +554,20 @@ FetchSeenExact ==
            \/ mb'[sel][u] = mb[sel][u]
            \/ u \in last'.addr /\ mb'[sel][u] = [mb[sel][u] EXCEPT !.f = @ \cup {"S"}]]_vars
 
-\* STORE touches exactly the addressed messages, and only permitted flags
+\* STORE (by either session) touches exactly the addressed messages, and only permitted flags
 StoreExact ==
-  [][(IsCmd /\ last'.cmd = "store" /\ last'.cond = "OK") =>
+  [][(IsCmd /\ last'.cmd \in {"store", "ostore"} /\ last'.cond = "OK") =>
         /\ DOMAIN mb'[sel] = DOMAIN mb[sel]
         /\ \A u \in DOMAIN mb[sel] :
              /\ u \notin last'.addr => mb'[sel][u] = mb[sel][u]
              /\ mb'[sel][u].d = mb[sel][u].d /\ mb'[sel][u].c = mb[sel][u].c
              /\ (mb'[sel][u].f \ mb[sel][u].f) \subseteq Permitted]_vars
+
+\* a command of the other session does not change what the acting session has
+\* selected, is never refused, and addresses only messages that exist
+OtherLeavesSession ==
+  [][(IsCmd /\ last'.cmd \in OtherKinds) =>
+        /\ sel' = sel /\ last'.cond = "OK" /\ last'.fetch = {}
+        /\ (last'.cmd # "oappend" => /\ last'.addr \cup last'.expunged \subseteq DOMAIN mb[sel]
+                                     /\ nextuid' = nextuid /\ nextcid' = nextcid)]_vars
 =============================================================================
